@@ -185,9 +185,9 @@ def run(ctx):
                  sample={'object history': lab, 'outcomes': out} if lab.endswith('RAR') and job['base'] == 'mass' else None)
 
     # 3b. the TLC-generated forms of the C06/C01 generator (large universe): all same-key request pairs
-    gcfg = write_cfg(ctx.scratch / 'gen13.cfg', dict(Dim=2, MaxTok=9, MaxStack=3, Rich=True, Poly=False, NcU=1, NcV=1), invariants=['TypeOK'])
+    gcfg = write_cfg(ctx.scratch / 'gen13.cfg', dict(Dim=2, MaxTok=9, MaxStack=3, Rich=True, Poly=False, NcU=1, NcV=1, Bnd=False), invariants=['TypeOK'])
     gres = ctx.tlc('VFormGen', gcfg, workers=4, simulate=40000 if not ctx.thorough else 200000, depth=14, seed=ctx.seed + 5)
-    gcfg2 = write_cfg(ctx.scratch / 'gen13b.cfg', dict(Dim=2, MaxTok=4, MaxStack=3, Rich=False, Poly=False, NcU=1, NcV=1), invariants=['TypeOK'])
+    gcfg2 = write_cfg(ctx.scratch / 'gen13b.cfg', dict(Dim=2, MaxTok=4, MaxStack=3, Rich=False, Poly=False, NcU=1, NcV=1, Bnd=False), invariants=['TypeOK'])
     gres2 = ctx.tlc('VFormGen', gcfg2, workers=4)
     toks = {}
     for f in gres2.recs('FORM') + gres.recs('FORM'):
